@@ -79,7 +79,7 @@ func (x *Exec) oblige(st *State, kind, label string, cond Term, tags []string, p
 		// safety conditions) are still recorded, so that the baseline notices when a clause stops
 		// producing obligations; no solver is called for them.
 		x.trivial++
-		if kind == "assert" || kind == "ensures" || kind == "onpanic" || kind == "call-pre" {
+		if kind == "assert" || kind == "ensures" || kind == "onpanic" || kind == "call-pre" || kind == "refines" {
 			fc := x.curFunc
 			name := fmt.Sprintf("%s#%s:%s", fc.key, kind, label)
 			ob := &Obligation{Name: name, Kind: kind, Func: fc.key, Tags: tags, Pos: x.prog.posString(pos), Cond: cond}
